@@ -6,6 +6,7 @@
    about it).
      reset   {init, maxserial}: the store holds the genuine TRCs 1..init
      notify  {isd, base, serial, outc[serial], errnil, fetched[], stored[[serial, content]], foreign, latest}
+     concurrent {calls[{serial, outc, errnil, fetched}], stored, foreign, latest}: simultaneous calls
      load    {files[{serial, content, future}], errnil, loaded, ignored, stored, foreign, latest}       *)
 EXTENDS TrustStoreOps, TLC, Json
 
@@ -72,12 +73,41 @@ Load ==
          /\ (obs # exp.db \/ ((R.errnil = 1) # (exp.err = ""))) => PrintT(<<"VERIF-DRIFT", l, "load-result">>)
          /\ UNCHANGED <<failed, nadv, nstop>>
 
+(* 2-3 simultaneous NotifyTRC calls on one database (real goroutines; no linearization points are
+   recorded, so only what must hold for every interleaving is checked): the final store is an
+   unbroken succession, every added TRC was served as a verifiable successor to a call that fetched
+   it, every call fetched consecutive serials and never went on after a failure, a call that
+   returned nil left the store at least at its serial.                                          *)
+Concurrent ==
+    LET S == DOMAIN db
+        obs == Obs(R.stored, S)
+        init == Latest(db)
+        n == Len(R.calls)
+        F(i) == R.calls[i].fetched
+        O(i, s) == IF s >= 1 /\ s <= Len(R.calls[i].outc) THEN R.calls[i].outc[s] ELSE "fetcherr"
+        served(s) == \E i \in 1..n : /\ \E k \in 1..Len(F(i)) : F(i)[k] = s
+                                       /\ O(i, s) \in GoodOutcomes /\ ContentOf(O(i, s)) = obs[s]
+        seqOK(i) == /\ \A k \in 1..(Len(F(i)) - 1) : F(i)[k + 1] = F(i)[k] + 1
+                    /\ Len(F(i)) > 0 => (F(i)[1] > init /\ F(i)[Len(F(i))] <= R.calls[i].serial)
+        stopOK(i) == \A k \in 1..(Len(F(i)) - 1) : O(i, F(i)[k]) \in GoodOutcomes
+    IN
+    IF R.foreign # 0 \/ Outside(R.stored, S) THEN Bad("concurrent:foreign-trc-stored")
+    ELSE IF ~Contiguous(obs, 1) THEN Bad("concurrent:gap-in-succession")
+    ELSE IF \E s \in S : s <= init /\ obs[s] # db[s] THEN Bad("concurrent:stored-trc-replaced")
+    ELSE IF \E s \in S : s > init /\ obs[s] # "none" /\ ~served(s) THEN Bad("concurrent:stored-unverified-or-unserved")
+    ELSE IF \E i \in 1..n : ~seqOK(i) THEN Bad("concurrent:fetch-order")
+    ELSE IF \E i \in 1..n : ~stopOK(i) THEN Bad("concurrent:continued-after-failure")
+    ELSE IF \E i \in 1..n : R.calls[i].errnil = 1 /\ Latest(obs) < R.calls[i].serial THEN Bad("concurrent:returned-nil-before-target")
+    ELSE /\ db' = obs /\ UNCHANGED <<failed, nstop>>
+         /\ nadv' = nadv + (IF Latest(obs) > init THEN 1 ELSE 0)
+
 Step == /\ l <= Len(Trace)
         /\ l' = l + 1
         /\ IF R.ev = "reset" THEN Reset
            ELSE IF failed THEN UNCHANGED <<db, failed, nadv, nstop>>
            ELSE CASE R.ev = "notify" -> Notify
                   [] R.ev = "load" -> Load
+                  [] R.ev = "concurrent" -> Concurrent
                   [] OTHER -> Bad("no-spec-action:" \o R.ev)
 
 Done == /\ l = Len(Trace) + 1
